@@ -1,6 +1,7 @@
 (* C20 — Layers are transparent, honour Tower readiness; listeners only observe.
    Model: Model/Layers.v. Only statements, `exact`, and Print Assumptions. *)
 From TR Require Import Lib.Base Model.Layers Proof.Layers.
+From TR Require Model.Bulkhead Model.Circuit Model.RateLimiter Model.Fallback Proof.RateLimiter Proof.Transparent.
 
 (* Readiness. For EVERY stack of layers (any depth, any order of the five call disciplines
    Swap / Direct / Retry k / Hedge k / Reconnect k that the thirteen middleware follow), every
@@ -56,3 +57,57 @@ Theorem C20_every_listener_gets_every_event :
     forall i l, nth_error ls i = Some l -> nth_error (emit ls ev) i = Some (l ev).
 Proof. exact every_listener_gets_every_event. Qed.
 Print Assumptions C20_every_listener_gets_every_event.
+
+(* Transparency of the individually modelled layers in their non-triggering configuration
+   (the per-layer models are those of C01/C07, C03/C04/C09, C02/C15 and C17; the other layers'
+   transparency is established by the correspondence run, mode 0 of the C20 scripts). *)
+Theorem C20_bulkhead_alone_transparent :
+  forall (c : Bulkhead.cfg) (o : Bulkhead.outcome),
+    (1 <= Bulkhead.cap c)%nat ->
+    let p1 := Bulkhead.poll c (Bulkhead.init c) 0%nat in
+    let s2 := Bulkhead.complete (fst p1) 0%nat o in
+    let p3 := Bulkhead.poll c s2 0%nat in
+    Bulkhead.started (snd p1) = true /\ Bulkhead.r (snd p1) = 0 /\
+    Bulkhead.started (snd p3) = false /\
+    Bulkhead.r (snd p3) = match o with Bulkhead.OOk => 1 | Bulkhead.OErr => 2 | Bulkhead.OPanic => 5 end /\
+    Bulkhead.running (fst p3) = [] /\ Bulkhead.free (fst p3) = Bulkhead.cap c.
+Proof. exact Transparent.bulkhead_alone. Qed.
+Print Assumptions C20_bulkhead_alone_transparent.
+
+Theorem C20_closed_circuit_transparent :
+  forall (cf : Circuit.cfg) (o : Circuit.outcome),
+    let p1 := Circuit.poll cf Circuit.init 0%nat in
+    let s2 := Circuit.complete (fst p1) 0%nat o in
+    let p3 := Circuit.poll cf s2 0%nat in
+    Circuit.started (snd p1) = true /\ Circuit.r (snd p1) = 0 /\
+    Circuit.started (snd p3) = false /\
+    Circuit.r (snd p3) = match o with Circuit.OOk _ => 1 | Circuit.OErr _ => 2 | Circuit.OPanic => 5 end.
+Proof. exact Transparent.circuit_closed_alone. Qed.
+Print Assumptions C20_closed_circuit_transparent.
+
+Theorem C20_ratelimiter_first_call_admitted :
+  forall (c : RateLimiter.cfg),
+    Proof.RateLimiter.wfc c ->
+    RateLimiter.started (snd (RateLimiter.poll c (RateLimiter.init c) 0%nat)) = true /\
+    RateLimiter.entered (fst (RateLimiter.poll c (RateLimiter.init c) 0%nat)) 0%nat = 1.
+Proof. exact Transparent.ratelimiter_first_call_admitted. Qed.
+Print Assumptions C20_ratelimiter_first_call_admitted.
+
+Theorem C20_ratelimiter_running_returns_outcome :
+  forall (c : RateLimiter.cfg) (s : RateLimiter.st) (i : nat) (o : RateLimiter.outcome),
+    RateLimiter.cs s i = RateLimiter.Running -> RateLimiter.gate s i = Some o ->
+    RateLimiter.started (snd (RateLimiter.poll c s i)) = false /\
+    RateLimiter.r (snd (RateLimiter.poll c s i)) =
+      match o with RateLimiter.OOk => 1 | RateLimiter.OErr => 2 | RateLimiter.OPanic => 5 end.
+Proof. exact Transparent.ratelimiter_running_returns_outcome. Qed.
+Print Assumptions C20_ratelimiter_running_returns_outcome.
+
+Theorem C20_fallback_nontriggering_transparent :
+  forall (Req Res Err : Type) (st : Fallback.strategy Req Res Err) pred inner backup req,
+    (forall e, inner req = inr e -> exists p, pred = Some p /\ p e = false) ->
+    Fallback.inner_calls (Fallback.call st pred inner backup req) = [req] /\
+    Fallback.backup_calls (Fallback.call st pred inner backup req) = [] /\
+    Fallback.out (Fallback.call st pred inner backup req) =
+      match inner req with inl r => inl r | inr e => inr (Fallback.Inner e) end.
+Proof. exact @Transparent.fallback_nontriggering. Qed.
+Print Assumptions C20_fallback_nontriggering_transparent.
